@@ -240,13 +240,17 @@ OLD_START = '''        if unit in ("second", "minute", "hour"):
         # of the instance: a skipped boundary is resolved forward,
         # a repeated one to its first occurrence.
         dt = getattr(self.replace(fold=1), f"_start_of_{unit}")()
+        first = dt.replace(fold=0)
 
-        return cast("Self", dt.replace(fold=0))
+        # Only a repeated start needs fold=0 (its first occurrence)
+        return cast("Self", first if first.utcoffset() != dt.utcoffset() else dt)
 '''
 VARIANTS += [
     ("C12-clean", "C12", None, "", "", None),
     ("C12-prefix-fold-flow", "C12", DT, OLD_START, '        return cast("Self", getattr(self, f"_start_of_{unit}")())\n', "FOLD.flow"),
     ("C12-day-in-small", "C12", DT, '        if unit in ("second", "minute", "hour"):\n            return cast("Self", getattr(self, f"_end_of_{unit}")())', '        if unit in ("second", "minute", "hour", "day"):\n            return cast("Self", getattr(self, f"_end_of_{unit}")())', "FOLD.small-units"),
+    ("C12-start-always-first", "C12", DT, "        return cast(\"Self\", first if first.utcoffset() != dt.utcoffset() else dt)", "        return cast(\"Self\", first)", None),
+    ("C12-start-never-first", "C12", DT, "        return cast(\"Self\", first if first.utcoffset() != dt.utcoffset() else dt)", "        return cast(\"Self\", dt)", "FOLD.flow"),
     ("C12-wrong-pin", "C12", DT, 'dt = getattr(self.replace(fold=0), f"_end_of_{unit}")()', 'dt = getattr(self.replace(fold=1), f"_end_of_{unit}")()', "FOLD.flow"),
     ("C12-unit-removed", "C12", DT, '        "decade",\n        "century",\n    ]\n\n    _EPOCH', '        "decade",\n        "century",\n        "millennium",\n    ]\n\n    _EPOCH', "DISPATCH.exhaustive"),
     ("C12-end-minute-58", "C12", DT, "        return self.set(second=59, microsecond=999999)", "        return self.set(second=58, microsecond=999999)", "LATTICE.fields"),
@@ -441,4 +445,8 @@ VARIANTS += [
 VARIANTS += [
     ("C08-zone-two-parts", "C08", FMT, '_MATCH_TIMEZONE = "[A-Za-z0-9-+]+(/[A-Za-z0-9-+_]+)*"', '_MATCH_TIMEZONE = "[A-Za-z0-9-+]+(/[A-Za-z0-9-+_]+)?"', "ZONE.regex"),
     ("C08-extract-unanchored", "C08", FMT, '        self._get_parsed_values(m, parsed, loaded_locale, now)\n\n        return self._check_parsed(parsed, now)', '        self._get_parsed_values(re.search(pattern, time), parsed, loaded_locale, now)\n\n        return self._check_parsed(parsed, now)', "EXTRACT.anchored"),
+]
+
+VARIANTS += [
+    ("C13-rs-order-value-guard", "C13", RSP, "                                if last_rank >= 6 {\n", "                                if duration.seconds != 0 || duration.microseconds != 0 {\n", "ORDER-GUARD"),
 ]
